@@ -24,6 +24,8 @@ import (
 	"sort"
 	"strconv"
 	"strings"
+	"sync/atomic"
+	"time"
 
 	"com.tuntun.rangers/node/src/common"
 	"com.tuntun.rangers/node/src/core"
@@ -157,6 +159,37 @@ func (n *node) wipe() {
 	n.everIds = map[string][]byte{}
 	if c := mysql.CountGroups(); c != 0 {
 		panic(fmt.Sprintf("mirror not empty after wipe: %d", c))
+	}
+}
+
+// preCycle reports whether following PreGroup from the group that gcurrent names (on disk)
+// never ends. Start-up would then never return (refreshCache has no cycle guard); such a store
+// only arises after a crash in the middle of remove. Not exercised: both sides say unmodelled.
+func preCycle() bool {
+	kv := core.VerifGroupChainDump()
+	m := map[string][]byte{}
+	for _, e := range kv {
+		m[string(e[0])] = e[1]
+	}
+	cur, ok := m["gcurrent"]
+	if !ok {
+		return false
+	}
+	steps := 0
+	for {
+		v, ok := m[string(cur)]
+		if !ok || len(v) == 0 || v[0] != '{' {
+			return false
+		}
+		var g *types.Group
+		if json.Unmarshal(v, &g) != nil || g == nil || g.Header == nil {
+			return false
+		}
+		steps++
+		if steps > len(kv) {
+			return true
+		}
+		cur = g.Header.PreGroup
 	}
 }
 
@@ -430,6 +463,10 @@ func (n *node) exec(line string) string {
 		return "dead"
 	}
 	if ws[0] == "restart" && len(ws) == 1 {
+		if preCycle() {
+			n.alive, n.booted = false, false
+			return "unmodelled"
+		}
 		n.nRestart++
 		return n.start()
 	}
@@ -453,6 +490,10 @@ func (n *node) exec(line string) string {
 			res = "crashed"
 		} else if !ok && !strings.HasPrefix(res, "PANIC") {
 			return "bad-op"
+		}
+		if preCycle() {
+			n.alive, n.booted = false, false
+			return "unmodelled"
 		}
 		n.nRestart++
 		return res + " / " + n.start()
@@ -872,8 +913,39 @@ func main() {
 	crashed := false // some op of the current history was actually cut by a crash
 	inDomain := false // oracle on: the generator running now produces well-formed histories only
 	broken := false // the current history already violated the property: later symptoms derive from it
+	// Watchdog: the real code has unbounded loops on states that break the invariant
+	// (refreshCache on a predecessor cycle, removeFromCommonAncestor after a count underflow).
+	// An op that runs longer than 20 s is reported and the process stops, instead of a 5-minute timeout.
+	var opStart int64
+	var curOp atomic.Value
+	curOp.Store("")
+	go func() {
+		for {
+			time.Sleep(time.Second)
+			t0 := atomic.LoadInt64(&opStart)
+			if t0 != 0 && time.Now().Unix()-t0 > 20 {
+				op, _ := curOp.Load().(string)
+				if mode == "search" {
+					v := viol{Key: "hang", Desc: "operation does not terminate within 20 s: " + op, History: append([]string{}, n.hist...)}
+					for _, pv := range viols {
+						pb, _ := json.Marshal(pv)
+						fmt.Println("VIOL " + string(pb))
+					}
+					b, _ := json.Marshal(v)
+					fmt.Println("VIOL " + string(b))
+					fmt.Printf("SEARCH {\"evaluations\":%d,\"mutators\":%d,\"boots\":%d,\"restarts\":%d,\"exhaustive_sequences\":0}\n", evals, mutators, n.nBoot, n.nRestart)
+					os.Exit(0)
+				}
+				fmt.Fprintln(os.Stderr, "c19 harness: op does not terminate within 20 s: "+op)
+				os.Exit(4)
+			}
+		}
+	}()
 	emit := func(op string) string {
 		var res string
+		atomic.StoreInt64(&opStart, time.Now().Unix())
+		curOp.Store(op)
+		defer atomic.StoreInt64(&opStart, 0)
 		w0 := n.writes
 		if mode == "corr" {
 			res = out.Do(op, func() string { return n.exec(op) })
